@@ -4,7 +4,7 @@
 # Sensitivity tooling only; applies each patch to /repo and always reverts it (through mutcheck.sh).
 set -u
 cd /verif
-out=seeded/REGRESSION.txt; : >"$out.tmp"
+out=${OUT:-seeded/REGRESSION.txt}; : >"$out.tmp"
 for d in seeded/${1:-*}/; do
   id=$(basename "$d"); [ -f "$d/patch.diff" ] || continue
   checks=$(python3 - "$d/meta.json" <<'PY'
